@@ -219,12 +219,15 @@ def judge_teamcity(rec, counters):
         out.append(V(rec, 'teamcity:cannot-tokenize', err + ' ; stream=%r' % obs['stream'][:1500], truth))
         return out
     counters['teamcity_messages_decoded'] = counters.get('teamcity_messages_decoded', 0) + len(msgs)
+    filtered = bool(truth.get('filtered'))
     # expected event sequence
     exp = []
     for r in range(truth['repeat']):
         for g in truth['groups']:
             exp.append(('testSuiteStarted', g['name'], None))
             for t in g['tests']:
+                if not t.get('selected', True):
+                    continue
                 exp.append(('testStarted', t['name'], None))
                 if t['ignored']:
                     exp.append(('testIgnored', t['name'], None))
@@ -265,6 +268,26 @@ def judge_teamcity(rec, counters):
     # faithfulness: decoded messages equal the ground truth
     got = [(n, a.get('name')) for n, a in msgs]
     want = [(n, nm) for n, nm, _ in exp]
+    if filtered:
+        counters['teamcity_filtered_runs'] = counters.get('teamcity_filtered_runs', 0) + 1
+        # filtered runs: whether a group without selected tests still gets an (empty) suite is not stated;
+        # judge the balance (automaton above), the test events, and that each test sits in a suite of its own group
+        got_tests = [x for x in got if not x[0].startswith('testSuite')]
+        want_tests = [x for x in want if not x[0].startswith('testSuite')]
+        if got_tests != want_tests:
+            out.append(V(rec, 'teamcity:filtered-run:test-events-differ', 'got %r expected %r' % (got_tests[:12], want_tests[:12]), truth))
+        cur = None
+        gi = iter([g for r in range(truth['repeat']) for g in truth['groups'] for t in g['tests'] if t.get('selected', True)])
+        for name, attrs in msgs:
+            if name == 'testSuiteStarted':
+                cur = attrs.get('name')
+            elif name == 'testSuiteFinished':
+                cur = None
+            elif name == 'testStarted':
+                g = next(gi, None)
+                if g is not None and cur != g['name']:
+                    out.append(V(rec, 'teamcity:filtered-run:test-in-foreign-suite', 'test %r of group %r reported inside suite %r' % (attrs.get('name'), g['name'], cur), truth))
+        return out
     if got != want:
         # find first difference
         k = 0
